@@ -10,5 +10,7 @@ INVARIANTS
   C04_LenAgreesDec
   C04_ShapeRoundTrip_KF
   C04_NextHopLen
+  C04_ExtFlag
+  C04_RawAccepted
   C04_Fixpoint_KF
   C04_Equal_KF
